@@ -11,13 +11,13 @@ Require Import MV.Lower.Lang MV.Lower.LangProofs MV.Lower.Passes MV.Lower.Contin
 
 Theorem continue_lowering_correct : forall b s d tr o s' d',
   run_block b s d tr o s' d' -> clean_block b = true -> o <> OCont ->
-  forall sl, agree s sl -> (snd (cont_block (cflag 0) 1 false b) = true -> sl (cflag 0) = false) ->
-  exists sl', run_block (fst (fst (cont_block (cflag 0) 1 false b))) sl d tr o sl' d' /\ agree s' sl'.
+  forall sl, agree s sl -> (snd (cont_block (cflag 0) 1 false false b) = true -> sl (cflag 0) = false) ->
+  exists sl', run_block (fst (fst (cont_block (cflag 0) 1 false false b))) sl d tr o sl' d' /\ agree s' sl'.
 Proof. exact continue_lowering_correct_lemma. Qed.
 
 Definition ex_c : block :=
   BCons (SWhile (CUser 1) (BCons (SAtom 2) (BCons (SIf (CUser 3) (BCons SContinue BNil) BNil) (BCons (SAtom 4) (BCons (SAtom 5) BNil)))) BNil) BNil.
-Example ex_c_lowered : fst (fst (cont_block (cflag 0) 1 false ex_c)) =
+Example ex_c_lowered : fst (fst (cont_block (cflag 0) 1 false false ex_c)) =
   BCons (SWhile (CUser 1) (BCons (SSet 4 false) (BCons (SAtom 2) (BCons (SIf (CUser 3) (BCons (SSet 4 true) BNil) BNil)
      (BCons (SIf (CNot 4) (BCons (SAtom 4) (BCons (SAtom 5) BNil)) BNil) BNil)))) BNil) BNil.
 Proof. vm_compute. reflexivity. Qed.
